@@ -15,7 +15,7 @@ func init() {
 	register(&Rule{ID: "R08.3", Props: []string{"C08", "C01"}, Floor: 2,
 		Doc: "trailer order: table, then data size, then table size + type code; only big-endian byte order objects in encode/decode/format",
 		Run: runR08_3})
-	register(&Rule{ID: "R08.4", Props: []string{"C08"}, Floor: 24,
+	register(&Rule{ID: "R08.4", Props: []string{"C08", "C10"}, Floor: 24,
 		Doc: "Grow coverage (determinism): every byte of every buffer.Grow(n) region in internal/encode is written on every path before the encoder returns",
 		Run: func(c *Ctx, r *R) { runR08_4(c, r, "coverage") }})
 	register(&Rule{ID: "R08.6", Props: []string{"C08", "C01", "C10"}, Floor: 24,
